@@ -223,7 +223,15 @@ CLAIMED["C20"] = {
     "(train_final_flow, bootstrap, plot_extra_state, redraw_samples, "
     "add_level_post_sampling): each option is accepted at construction and "
     "fails only after sampling -- confirmed end to end "
-    "(tools/findings/c20_late_options.py); listed as known findings.",
+    "(tools/findings/c20_late_options.py); listed as known findings. "
+    "Progress precondition of the importance sampler's loop: every level "
+    "draws at least one point (add_and_update_points REQUIRES n >= 1; "
+    "proved for constant draws / replace_all; FAILS for variable draws when "
+    "a level removes nothing: known finding with an end-to-end witness, "
+    "tools/findings/c20_zero_removal.py). Training options: "
+    "FlowModel.prep_data never hands torch's DataLoader an invalid batch "
+    "size (empty validation split, any val_size in [0,1), batch sizes >= 1, "
+    "with / without weights).",
     "note": "NOT decided: that every population loop terminates within a "
     "bounded number of draws (probabilistic), wall-clock bounds, and the "
     "covering-array behaviour of real runs. Receivers whose class cannot be "
